@@ -254,6 +254,7 @@ func encodeAndSplitGSM7Packed(content string, frameKey byte) ([][]byte, datacodi
 		res = append(res, contentByte)
 
 		begin = end
+		splitYield(frameKey, msgCount, idx)
 	}
 
 	return res, dataCoding, nil
@@ -295,6 +296,7 @@ func splitWithUDHI(data []byte, perMsgLength int, frameKey byte, coding datacodi
 		contentByte = append(contentByte, data[begin:end]...)
 		contentBytes = append(contentBytes, contentByte)
 		begin = end
+		splitYield(frameKey, msgCount, idx)
 	}
 
 	return contentBytes
